@@ -8,6 +8,7 @@ package rules
 import (
 	"fmt"
 	"go/ast"
+	"go/constant"
 	"go/token"
 	"go/types"
 	"sort"
@@ -75,9 +76,225 @@ type schemaGuards struct {
 	c      *Ctx
 	st     *types.Struct
 	named  *types.Named
-	defs   map[*types.Var][]flagDef // non-copy assignments per bool field
-	copies map[*types.Var]bool      // fields copied by inherits
+	defs   map[*types.Var][]flagDef  // non-copy assignments per bool field
+	copies map[*types.Var]bool       // fields copied by inherits
 	subst  map[types.Object]substArg // parameters of helpers being expanded -> the argument in the caller
+	// flags kept as bits of an integer member: per member, per bit, the condition under which the bit is set
+	bits     map[*types.Var]map[uint64]*pf
+	bitsDone bool
+}
+
+// collectBits reads the definitions of the integer members of the analysed-schema record that are used as sets of
+// flags: `a.F = cond(c1, bit1) | cond(c2, bit2) | …` and `if c { a.F |= bit }`, where cond is a module helper of the
+// shape `if p { return v }; return 0`. A member with a definition it cannot read is left out (its tests stay opaque
+// atoms).
+func (g *schemaGuards) collectBits() {
+	if g.bitsDone {
+		return
+	}
+	g.bitsDone = true
+	g.bits = map[*types.Var]map[uint64]*pf{}
+	isBitField := func(fv *types.Var) bool {
+		if fv == nil {
+			return false
+		}
+		for i := 0; i < g.st.NumFields(); i++ {
+			if g.st.Field(i) == fv {
+				b, ok := fv.Type().Underlying().(*types.Basic)
+				return ok && b.Info()&types.IsInteger != 0
+			}
+		}
+		return false
+	}
+	opaque := map[*types.Var]bool{}
+	constBit := func(info *types.Info, e ast.Expr) (uint64, bool) {
+		if tv, ok := info.Types[e]; ok && tv.Value != nil {
+			if v, exact := constant.Uint64Val(constant.ToInt(tv.Value)); exact {
+				return v, true
+			}
+		}
+		return 0, false
+	}
+	for _, fi := range g.c.P.SortedFuncs() {
+		if fi.Pkg.PkgPath != core.ModPath {
+			continue
+		}
+		info := g.c.info(fi)
+		ast.Inspect(fi.Decl.Body, func(n ast.Node) bool {
+			as, ok := n.(*ast.AssignStmt)
+			if !ok || len(as.Lhs) != 1 || len(as.Rhs) != 1 {
+				return true
+			}
+			sel, ok := core.Unparen(as.Lhs[0]).(*ast.SelectorExpr)
+			if !ok {
+				return true
+			}
+			fv := core.FieldOf(info, sel)
+			if !isBitField(fv) {
+				return true
+			}
+			if rs, ok := core.Unparen(as.Rhs[0]).(*ast.SelectorExpr); ok && core.FieldOf(info, rs) == fv {
+				return true // the wholesale copy of inherits
+			}
+			if as.Tok != token.ASSIGN && as.Tok != token.OR_ASSIGN && as.Tok != token.DEFINE {
+				opaque[fv] = true
+				return true
+			}
+			recv := exprStr(sel.X)
+			// the conditions of the statement
+			var stmtCond *pf
+			for _, cd := range g.c.conds(fi, as) {
+				if cd.Kind != core.CondBool {
+					continue
+				}
+				cf := g.exprFormula(fi, cd.Expr, recv, 1)
+				if cf == nil {
+					opaque[fv] = true
+					return true
+				}
+				if cd.Neg {
+					cf = pNot(cf)
+				}
+				if stmtCond == nil {
+					stmtCond = cf
+				} else {
+					stmtCond = pAnd(stmtCond, cf)
+				}
+			}
+			var terms func(e ast.Expr) bool
+			terms = func(e ast.Expr) bool {
+				e = core.Unparen(e)
+				if be, isBin := e.(*ast.BinaryExpr); isBin && be.Op == token.OR {
+					return terms(be.X) && terms(be.Y)
+				}
+				var cond *pf
+				bit, isConst := constBit(info, e)
+				if !isConst {
+					call, isCall := e.(*ast.CallExpr)
+					if !isCall || len(call.Args) != 2 {
+						return false
+					}
+					h := g.c.P.Funcs[g.c.P.StaticCallee(fi, call)]
+					if h == nil || !isCondValueHelper(g.c, h) {
+						return false
+					}
+					b, okb := constBit(info, call.Args[1])
+					if !okb {
+						return false
+					}
+					bit = b
+					cond = g.exprFormula(fi, call.Args[0], recv, 1)
+					if cond == nil {
+						return false
+					}
+				}
+				if bit == 0 {
+					return true
+				}
+				if cond == nil {
+					cond = &pf{op: 't'}
+				}
+				if stmtCond != nil {
+					cond = pAnd(stmtCond, cond)
+				}
+				if g.bits[fv] == nil {
+					g.bits[fv] = map[uint64]*pf{}
+				}
+				// one formula per single bit of the value
+				for b := uint64(1); b != 0 && b <= bit; b <<= 1 {
+					if bit&b == 0 {
+						continue
+					}
+					if old := g.bits[fv][b]; old != nil {
+						g.bits[fv][b] = &pf{op: '|', l: old, r: cond}
+					} else {
+						g.bits[fv][b] = cond
+					}
+				}
+				return true
+			}
+			if !terms(as.Rhs[0]) {
+				opaque[fv] = true
+			}
+			return true
+		})
+	}
+	for fv := range opaque {
+		delete(g.bits, fv)
+	}
+}
+
+// isCondValueHelper: func(c bool, v T) T { if c { return v }; return 0 }.
+func isCondValueHelper(c *Ctx, h *core.FuncInfo) bool {
+	if h.Decl == nil || h.Decl.Body == nil || len(h.Decl.Body.List) != 2 {
+		return false
+	}
+	info := c.info(h)
+	p0, p1 := paramObj(h, 0), paramObj(h, 1)
+	ifs, ok := h.Decl.Body.List[0].(*ast.IfStmt)
+	if !ok || p0 == nil || p1 == nil || ifs.Else != nil || core.ObjOf(info, ifs.Cond) != types.Object(p0) || len(ifs.Body.List) != 1 {
+		return false
+	}
+	r1, ok1 := ifs.Body.List[0].(*ast.ReturnStmt)
+	r2, ok2 := h.Decl.Body.List[1].(*ast.ReturnStmt)
+	if !ok1 || !ok2 || len(r1.Results) != 1 || len(r2.Results) != 1 || core.ObjOf(info, r1.Results[0]) != types.Object(p1) {
+		return false
+	}
+	tv, isC := info.Types[r2.Results[0]]
+	return isC && tv.Value != nil && tv.Value.String() == "0"
+}
+
+// maskFormula: the member has one of the bits of the mask set.
+func (g *schemaGuards) maskFormula(fv *types.Var, mask uint64) *pf {
+	g.collectBits()
+	defs, ok := g.bits[fv]
+	if !ok {
+		return nil
+	}
+	var res *pf
+	for b := uint64(1); b != 0 && b <= mask; b <<= 1 {
+		if mask&b == 0 {
+			continue
+		}
+		f := defs[b]
+		if f == nil {
+			f = &pf{op: 'f'}
+		}
+		if res == nil {
+			res = f
+		} else {
+			res = &pf{op: '|', l: res, r: f}
+		}
+	}
+	if res == nil {
+		res = &pf{op: 'f'}
+	}
+	return res
+}
+
+// bitTest: e is `<recv>.<member> & <mask> != 0` (or == 0); returns the member, the mask expression and the polarity.
+func (g *schemaGuards) bitTest(info *types.Info, e ast.Expr) (*types.Var, ast.Expr, bool, bool) {
+	be, ok := core.Unparen(e).(*ast.BinaryExpr)
+	if !ok || be.Op != token.NEQ && be.Op != token.EQL {
+		return nil, nil, false, false
+	}
+	if tv, isC := info.Types[be.Y]; !isC || tv.Value == nil || tv.Value.String() != "0" {
+		return nil, nil, false, false
+	}
+	and, ok := core.Unparen(be.X).(*ast.BinaryExpr)
+	if !ok || and.Op != token.AND {
+		return nil, nil, false, false
+	}
+	for _, pr := range [][2]ast.Expr{{and.X, and.Y}, {and.Y, and.X}} {
+		if sel, isSel := core.Unparen(pr[0]).(*ast.SelectorExpr); isSel {
+			if fv := core.FieldOf(info, sel); fv != nil {
+				if b, isB := fv.Type().Underlying().(*types.Basic); isB && b.Info()&types.IsInteger != 0 {
+					return fv, pr[1], be.Op == token.NEQ, true
+				}
+			}
+		}
+	}
+	return nil, nil, false, false
 }
 
 type substArg struct {
@@ -346,6 +563,23 @@ func (g *schemaGuards) exprFormula(fi *core.FuncInfo, e ast.Expr, recv string, d
 				}
 				return a
 			}
+			// a.features&mask != 0 with a constant (or substituted) mask
+			if fv, maskE, positive, isTest := g.bitTest(info, x); isTest {
+				mfi, me := fi, maskE
+				if sub, ok := g.subst[core.ObjOf(info, core.Unparen(maskE))]; ok {
+					mfi, me = sub.fi, sub.e
+				}
+				if tv, isC := g.c.info(mfi).Types[me]; isC && tv.Value != nil {
+					if mask, exact := constant.Uint64Val(constant.ToInt(tv.Value)); exact {
+						if mf := g.maskFormula(fv, mask); mf != nil {
+							if !positive {
+								return pNot(mf)
+							}
+							return mf
+						}
+					}
+				}
+			}
 		}
 	case *ast.Ident:
 		if sub, ok := g.subst[core.ObjOf(info, x)]; ok {
@@ -389,6 +623,39 @@ func (g *schemaGuards) exprFormula(fi *core.FuncInfo, e ast.Expr, recv string, d
 							bound = append(bound, po)
 						}
 						res := g.exprFormula(cf, ret.Results[0], "", depth+1)
+						for _, po := range bound {
+							delete(g.subst, po)
+						}
+						if res != nil {
+							return res
+						}
+					}
+				}
+			}
+		}
+		// a.has(mask): a single-return boolean method of the same receiver with parameters standing for the arguments
+		if sel, ok := x.Fun.(*ast.SelectorExpr); ok && exprStr(sel.X) == recv && len(x.Args) > 0 {
+			if callee := g.c.P.StaticCallee(fi, x); callee != nil {
+				if cf := g.c.P.Funcs[callee]; cf != nil && cf.Decl.Body != nil && len(cf.Decl.Body.List) == 1 && cf.Decl.Recv != nil {
+					if ret, ok := cf.Decl.Body.List[0].(*ast.ReturnStmt); ok && len(ret.Results) == 1 && core.IsBool(g.c.info(cf).TypeOf(ret.Results[0])) {
+						sig := callee.Type().(*types.Signature)
+						if g.subst == nil {
+							g.subst = map[types.Object]substArg{}
+						}
+						var bound []types.Object
+						for i := 0; i < sig.Params().Len() && i < len(x.Args); i++ {
+							po := sig.Params().At(i)
+							if _, busy := g.subst[po]; busy {
+								continue
+							}
+							g.subst[po] = substArg{fi, x.Args[i], recv}
+							bound = append(bound, po)
+						}
+						crecv := ""
+						if len(cf.Decl.Recv.List[0].Names) == 1 {
+							crecv = cf.Decl.Recv.List[0].Names[0].Name
+						}
+						res := g.exprFormula(cf, ret.Results[0], crecv, depth+1)
 						for _, po := range bound {
 							delete(g.subst, po)
 						}
